@@ -91,10 +91,6 @@ func loadView(ctx context.Context, scope *ReferenceScope, tableExpr parser.Query
 	}
 
 	table := tableExpr.(parser.Table)
-	tableName, err := ParseTableName(ctx, scope, table)
-	if err != nil {
-		return nil, err
-	}
 
 	switch table.Object.(type) {
 	case parser.Dual:
@@ -287,8 +283,8 @@ func loadView(ctx context.Context, scope *ReferenceScope, tableExpr parser.Query
 		view, err = loadObject(
 			ctx,
 			scope,
+			table,
 			tablePath,
-			tableName,
 			forUpdate,
 			useInternalId,
 			isInlineObject,
@@ -305,8 +301,8 @@ func loadView(ctx context.Context, scope *ReferenceScope, tableExpr parser.Query
 		view, err = loadObject(
 			ctx,
 			scope,
+			table,
 			table.Object,
-			tableName,
 			forUpdate,
 			useInternalId,
 			false,
@@ -409,6 +405,7 @@ func loadView(ctx context.Context, scope *ReferenceScope, tableExpr parser.Query
 			return nil, err
 		}
 
+		tableName := tableNameOf(table, subquery)
 		if 0 < len(tableName.Literal) {
 			if err := scope.AddAlias(tableName, ""); err != nil {
 				return nil, err
@@ -814,17 +811,13 @@ func loadObjectFromFile(
 func loadObject(
 	ctx context.Context,
 	scope *ReferenceScope,
+	table parser.Table,
 	tablePath parser.QueryExpression,
-	tableName parser.Identifier,
 	forUpdate bool,
 	useInternalId bool,
 	isInlineObject bool,
 	options option.ImportOptions,
 ) (*View, error) {
-	if stdin, ok := tablePath.(parser.Stdin); ok {
-		return loadObjectFromStdin(ctx, scope, stdin, tableName, forUpdate, useInternalId, options)
-	}
-
 	if !isInlineObject {
 		if tableFunction, ok := tablePath.(parser.TableFunction); ok && strings.ToUpper(tableFunction.Name) == "INLINE" {
 			isInlineObject = true
@@ -835,6 +828,13 @@ func loadObject(
 	tablePath, err := NormalizeTableObject(ctx, scope, tablePath)
 	if err != nil {
 		return nil, err
+	}
+
+	// The name is taken from the object that is loaded: the arguments of a table function are evaluated once.
+	tableName := tableNameOf(table, tablePath)
+
+	if stdin, ok := tablePath.(parser.Stdin); ok {
+		return loadObjectFromStdin(ctx, scope, stdin, tableName, forUpdate, useInternalId, options)
 	}
 
 	if dataObject, ok := tablePath.(DataObject); ok {
